@@ -8,6 +8,8 @@ for d in sorted(os.listdir(os.path.join(V, "seeded"))):
     if not os.path.exists(mp):
         continue
     m = json.load(open(mp))
+    if "breaks_property" not in m or (len(sys.argv) > 1 and not d.endswith(sys.argv[1]) and not (sys.argv[1] == "r1" and "-" not in d)):
+        continue
     notes = m.get("needs_to_manifest", "")
     summ = m.get("summary") or re.sub(r"\s+", " ", notes)[:160]
     sp = os.path.join(V, "seeded", "summaries.json")
